@@ -51,6 +51,11 @@ def stepLine (s : State) (line : String) : State × String :=
     | none => (s, "bad-op")
   | ["cur", h] => match parseInt? h with | some h => ({ s with cur := h }, "ok") | none => (s, "bad-op")
   | ["now", t] => match parseInt? t with | some t => ({ s with now := t }, "ok") | none => (s, "bad-op")
+  | ["chain", "other"] => ({ s with chain := .otherType }, "ok")
+  | ["pool", "short", b] =>
+    match b01? b with
+    | some b => ({ s with pool := { s.pool with short := b } }, "ok")
+    | none => (s, "bad-op")
   | ["chain", "err"] => ({ s with chain := .err }, "ok")
   | ["chain", "items", n] => match n.toNat? with | some n => ({ s with chain := .items n }, "ok") | none => (s, "bad-op")
   | ["lt", key, hh, height, cnt, miner, sender, hashes] =>
